@@ -1,4 +1,4 @@
-From QV Require Import model.Base model.Lang model.Types model.Tir model.Ceval model.Builder model.Sem proofs.SemProofs proofs.ScopeProofs props.C01.
+From QV Require Import model.Base model.Lang model.Types model.Tir model.Ceval model.Builder model.Sem proofs.SemProofs proofs.ScopeProofs proofs.FrameProofs props.C01.
 Open Scope Z_scope.
 Check (C01_partial_int_arith_exact : forall op x y v, in_int x = true -> in_int y = true ->
   match op with BAdd | BSub | BMul | BDiv | BRem | BShl => True | _ => False end ->
@@ -28,6 +28,14 @@ Check (C01_partial_semantics_scope : forall names this s st e o st' e',
 Check (C01_partial_translator_scope : forall s E env brk, scoped s = true ->
   forall st r st', walk_stmt E env brk s st = (V r, st') -> snd r = env).
 Check (eq_refl : scoped (SSwitch (EInt 1) [(EInt 1, [SDecl DLet [("x"%string, None, Some (EInt 2))]])] None) = true).
+Check (C01_partial_fold_agrees_arith : forall op bop x y r,
+  (op = BoAdd /\ bop = BAdd) \/ (op = BoSub /\ bop = BSub) \/ (op = BoMul /\ bop = BMul) \/ (op = BoDiv /\ bop = BDiv) \/ (op = BoRem /\ bop = BRem) ->
+  eval_binary_arith op (CInt x) (CInt y) = inl (CInt r) -> arith bop (VL x) (VL y) = Def (VL r)).
+Check (C01_partial_fold_agrees_bitwise : forall op bop x y r,
+  (op = BoAnd /\ bop = BAnd) \/ (op = BoOr /\ bop = BOr) \/ (op = BoXor /\ bop = BXor) ->
+  eval_binary_bitwise op (CInt x) (CInt y) = inl (CInt r) -> arith bop (VL x) (VL y) = Def (VL r)).
+Check (C01_partial_evaluation_changes_no_property : forall names this x st e v st',
+  eval names this st e x = Def (v, st') -> objs st' = objs st /\ exists t, trace st' = t ++ trace st).
 Check (eq_refl : arith BRem (VI (-7)) (VI 4) = Def (VI (-3))).
 Check (eq_refl : arith BDiv (VI (-7)) (VL 2) = Def (VI (-3))).
 Check (eq_refl : arith BShr (VI (-8)) (VL 1) = Def (VI (-4))).
